@@ -10,6 +10,7 @@ package main
 //   100/101/102       context.Context / godi.Scope / godi.Provider
 
 import (
+	"fmt"
 	"context"
 	"reflect"
 
@@ -79,6 +80,8 @@ var (
 	scopeType = reflect.TypeOf((*godi.Scope)(nil)).Elem()
 	provType  = reflect.TypeOf((*godi.Provider)(nil)).Elem()
 	errType   = reflect.TypeOf((*error)(nil)).Elem()
+	ptrErrTy  = reflect.TypeOf((*PtrErr)(nil))
+	valErrTy  = reflect.TypeOf(ValErr{})
 	voidType  = reflect.TypeOf(struct{}{})
 )
 
@@ -88,6 +91,7 @@ const (
 	tScope = 101
 	tProv  = 102
 	tNil   = 999
+	tNilOut = 997 // as Dyn[k] of a multi-output registration: the constructor leaves output k nil
 )
 
 // goType maps a type number to its reflect.Type (nil for tNil).
@@ -144,3 +148,12 @@ func newObj(dyn int, o Obj) reflect.Value {
 	f.Set(reflect.ValueOf(o))
 	return v
 }
+
+// PtrErr and ValErr are error results declared with a concrete type instead of `error`.
+type PtrErr struct{ Rid int }
+
+func (e *PtrErr) Error() string { return fmt.Sprintf("scripted constructor error (pointer type) of registration %d", e.Rid) }
+
+type ValErr struct{ Rid int }
+
+func (e ValErr) Error() string { return fmt.Sprintf("scripted constructor error (struct type) of registration %d", e.Rid) }
